@@ -27,6 +27,8 @@ type checker struct {
 	sf      *shards // scalar oracles: float class, integer text -> float, UTF-8 coercion
 	pf      *shards // protobuf: values, event trees, collector
 	vf      *shards // Serializer: options + value -> the calls the consumer received
+	lf      *shards // string lexemes: string -> json.Marshal, the bytes the streamer wrote, their decoding
+	nViolL  int
 	nViolJ  int
 	nViolP  int
 	nKnown  int
@@ -49,7 +51,7 @@ type shards struct {
 	bytes int // of the last file
 }
 
-var caseImports = []string{"Model.Base", "Model.Json", "Model.Pb", "Model.PbMem", "Model.JsonSer", "Corr.CorrC11"}
+var caseImports = []string{"Model.Base", "Model.Json", "Model.Pb", "Model.PbMem", "Model.JsonSer", "Model.JsonStr", "Corr.CorrC11"}
 
 func (s *shards) Add(term string, input interface{}) {
 	if len(s.files) == 0 || len(s.files[len(s.files)-1].Cases) >= maxCasesPerFile || s.bytes+len(term) > maxBytesPerFile {
@@ -89,11 +91,13 @@ func newChecker(cfg *lib.Config, res *lib.Result) *checker {
 			"pb_model": "pb_mismatches cases"}},
 		vf: &shards{name: "cases_ser", typ: "sercase", obl: map[string]string{
 			"ser_model": "ser_mismatches cases"}},
+		lf: &shards{name: "cases_str", typ: "lcase", obl: map[string]string{
+			"str_lexemes": "str_lexeme_mismatches cases"}},
 	}
 }
 
 func (c *checker) finish() {
-	for _, s := range []*shards{c.jf, c.rf, c.sf, c.pf, c.vf} {
+	for _, s := range []*shards{c.jf, c.rf, c.sf, c.pf, c.vf, c.lf} {
 		c.res.CorrFiles = append(c.res.CorrFiles, s.WriteAll(c.cfg.Out)...)
 	}
 }
@@ -517,46 +521,57 @@ func (c *checker) dataValue(e *Ev, shared bool, o serOpts, family string) (emitt
 	}
 	v := toPx(e, memo)
 	c.say("Data value    : %s shared=%v opts=%+v", e.String(), shared, o)
-	// --- JSON
-	buf := &bytes.Buffer{}
-	t := &tee{rec: newRecorder(), next: serialization.NewJsonStreamer(buf)}
-	so, sd := guarded(func() { serialization.NewSerializer(pcore.RootContext(), o.hash()).Convert(v, t) })
-	c.say("  JSON        : %q (outcome %q %s) events %s", buf.String(), so, sd, evsText(t.rec.events()))
+	// --- JSON, by both routes the library offers: a Serializer in front of NewJsonStreamer, and DataToJson
 	nonfinite := e.has(isNonFinite)
-	if so != "" {
-		if so == "fault" || !nonfinite {
-			fail("json-data-roundtrip", fmt.Sprintf("serializing %s to JSON fails (%s: %s)", short(e.String()), so, sd))
-		}
-	} else {
-		emitted = append(emitted, t.rec.events()...)
-		if !json.Valid(buf.Bytes()) {
-			fail("json-valid", fmt.Sprintf("Data value %s is written as %s, which is not valid JSON", short(e.String()), short(buf.String())))
+	var so, sd string
+	for route := 0; route < 2; route++ {
+		buf := &bytes.Buffer{}
+		t := &tee{rec: newRecorder(), next: serialization.NewJsonStreamer(buf)}
+		rname := "Serializer+NewJsonStreamer"
+		if route == 0 {
+			so, sd = guarded(func() { serialization.NewSerializer(pcore.RootContext(), o.hash()).Convert(v, t) })
 		} else {
-			var back *Ev
-			ro, rd := guarded(func() {
-				coll := types.NewCollector()
-				serialization.JsonToData("/verif/c11.json", bytes.NewReader(buf.Bytes()), coll)
-				back = fromPx(coll.Value())
-			})
-			c.say("  JSON->value : %v (outcome %q %s)", back, ro, rd)
-			if ro != "" || !evEq(back, jsonImage(e)) {
-				var tags []string
-				if e.has(prefFirstKey) {
-					ne := neutralisePref(e)
-					if len(c.dataValueQuiet(ne, shared, o)) == 0 {
-						tags = append(tags, "pref-first-key")
-					}
-				}
-				if len(tags) > 0 {
-					c.res.Count("data.known-finding." + tags[0])
-					c.nKnown++
-				}
-				if len(tags) == 0 || c.nKnown <= 5 {
-					c.res.Violate(lib.Violation{Clause: "json-data-roundtrip", Input: input, Tags: tags,
-						What: fmt.Sprintf("Data value %s is written as %s and rebuilt as %v %s", short(e.String()), short(buf.String()), back, rd)})
-				}
-				c.say("  FAILS json-data-roundtrip %v", tags)
+			rname = "DataToJson"
+			so, sd = guarded(func() { serialization.DataToJson(v, buf) })
+		}
+		c.say("  JSON (%s): %q (outcome %q %s) events %s", rname, buf.String(), so, sd, evsText(t.rec.events()))
+		if so != "" {
+			if so == "fault" || !nonfinite {
+				fail("json-data-roundtrip", fmt.Sprintf("serializing %s to JSON (%s) fails (%s: %s)", short(e.String()), rname, so, sd))
 			}
+			continue
+		}
+		if route == 0 {
+			emitted = append(emitted, t.rec.events()...)
+		}
+		if !json.Valid(buf.Bytes()) {
+			fail("json-valid", fmt.Sprintf("Data value %s is written (%s) as %s, which is not valid JSON", short(e.String()), rname, short(buf.String())))
+			continue
+		}
+		var back *Ev
+		ro, rd := guarded(func() {
+			coll := types.NewCollector()
+			serialization.JsonToData("/verif/c11.json", bytes.NewReader(buf.Bytes()), coll)
+			back = fromPx(coll.Value())
+		})
+		c.say("  JSON->value : %v (outcome %q %s)", back, ro, rd)
+		if ro != "" || !evEq(back, jsonImage(e)) {
+			var tags []string
+			if e.has(prefFirstKey) {
+				ne := neutralisePref(e)
+				if len(c.dataValueQuiet(ne, shared, o)) == 0 {
+					tags = append(tags, "pref-first-key")
+				}
+			}
+			if len(tags) > 0 {
+				c.res.Count("data.known-finding." + tags[0])
+				c.nKnown++
+			}
+			if len(tags) == 0 || c.nKnown <= 5 {
+				c.res.Violate(lib.Violation{Clause: "json-data-roundtrip", Input: input, Tags: tags,
+					What: fmt.Sprintf("Data value %s is written (%s) as %s and rebuilt as %v %s", short(e.String()), rname, short(buf.String()), back, rd)})
+			}
+			c.say("  FAILS json-data-roundtrip %v", tags)
 		}
 	}
 	// --- protobuf
